@@ -1626,6 +1626,14 @@ impl AnnotationStore {
                 (Selector::DataSetSelector(dataset), Selector::DataSetSelector(dataset2)) => {
                     dataset.cmp(dataset2)
                 }
+                (
+                    Selector::DataKeySelector(dataset, key),
+                    Selector::DataKeySelector(dataset2, key2),
+                ) => (dataset, key).cmp(&(dataset2, key2)),
+                (
+                    Selector::AnnotationDataSelector(dataset, data),
+                    Selector::AnnotationDataSelector(dataset2, data2),
+                ) => (dataset, data).cmp(&(dataset2, data2)),
                 //some canonical ordering for selectors
                 (Selector::TextSelector(..), _) => Ordering::Less,
                 (_, Selector::TextSelector(..)) => Ordering::Greater,
@@ -1633,6 +1641,10 @@ impl AnnotationStore {
                 (_, Selector::ResourceSelector(..)) => Ordering::Greater,
                 (Selector::DataSetSelector(..), _) => Ordering::Less,
                 (_, Selector::DataSetSelector(..)) => Ordering::Greater,
+                (Selector::DataKeySelector(..), _) => Ordering::Less,
+                (_, Selector::DataKeySelector(..)) => Ordering::Greater,
+                (Selector::AnnotationDataSelector(..), _) => Ordering::Less,
+                (_, Selector::AnnotationDataSelector(..)) => Ordering::Greater,
                 // catch-all for anything that shouldn't occur at this point anyway:
                 (a, b) => panic!("Unable to compare order for selector {:?} vs {:?}", a, b),
             });
